@@ -153,8 +153,11 @@ theorem parseDoctype_doctypeContent (n : Str) (p s : Option Str) (h : dtFieldsOk
 
 /-! `dtScan`: the literal is well quoted -/
 
-theorem dtScan_append_plain (a rest : Str) (ha : ∀ c ∈ a, (c != '>' && c != '"' && c != '\'') = true) :
-    dtScan none (a ++ rest) = dtScan none rest := by
+/-- no `>` in the identifiers: an HTML parser ends the declaration at the first `>`, quoted or not -/
+def dtNoGt (p s : Option Str) : Bool := (p.getD []).all (· != '>') && (s.getD []).all (· != '>')
+
+theorem dtScan_append_plain (xml : Bool) (a rest : Str) (ha : ∀ c ∈ a, (c != '>' && c != '"' && c != '\'') = true) :
+    dtScan xml none (a ++ rest) = dtScan xml none rest := by
   induction a with
   | nil => rfl
   | cons c cs ih =>
@@ -163,35 +166,43 @@ theorem dtScan_append_plain (a rest : Str) (ha : ∀ c ∈ a, (c != '>' && c != 
     have ih' := ih (fun y hy => ha y (by simp [hy]))
     simp [dtScan, hc.1.1, hc.1.2, hc.2, ih']
 
-theorem dtScan_quoted (q : Char) (v rest : Str) (hv : ∀ c ∈ v, (c == q) = false) :
-    dtScan (some q) (v ++ q :: rest) = dtScan none rest := by
+theorem dtScan_quoted (xml : Bool) (q : Char) (v rest : Str) (hv : ∀ c ∈ v, (c == q) = false)
+    (hg : xml = false → ∀ c ∈ v, (c == '>') = false) :
+    dtScan xml (some q) (v ++ q :: rest) = dtScan xml none rest := by
   induction v with
   | nil => simp [dtScan]
   | cons c cs ih =>
     have hc := hv c (by simp)
-    have ih' := ih (fun y hy => hv y (by simp [hy]))
-    simp [dtScan, hc, ih']
+    have ih' := ih (fun y hy => hv y (by simp [hy])) (fun hx y hy => hg hx y (by simp [hy]))
+    have h2 : (!xml && c == '>') = false := by
+      cases xml with
+      | true => rfl
+      | false => simpa using hg rfl c (by simp)
+    simp only [List.cons_append, dtScan, hc, Bool.false_eq_true, ↓reduceIte, h2, ih']
 
-theorem dtScan_sysLit (s : Option Str)
-    (h : (!(s.getD []).any (· == '"') || (s.getD []).all (· != '\'')) = true) : dtScan none (sysLit s) = true := by
+theorem dtScan_sysLit (xml : Bool) (s : Option Str)
+    (h : (!(s.getD []).any (· == '"') || (s.getD []).all (· != '\'')) = true)
+    (hg : xml = false → ∀ c ∈ s.getD [], (c == '>') = false) : dtScan xml none (sysLit s) = true := by
   by_cases ht : truthy s = true
   · simp only [sysLit, ht, ↓reduceIte]
     by_cases hq : (s.getD []).any (· == '"') = true
     · have hs : ∀ x ∈ s.getD [], (x == '\'') = false := by
         simp only [hq, Bool.not_true, Bool.false_or, List.all_eq_true, bne_iff_ne, ne_eq] at h
         intro x hx; simpa using h x hx
-      have := dtScan_quoted '\'' (s.getD []) [] hs
+      have := dtScan_quoted xml '\'' (s.getD []) [] hs hg
       simp [hq, dtScan, this]
     · have hs : ∀ x ∈ s.getD [], (x == '"') = false := by
         simp only [Bool.not_eq_true, List.any_eq_false, beq_iff_eq] at hq
         intro x hx; simpa using hq x hx
-      have := dtScan_quoted '"' (s.getD []) [] hs
+      have := dtScan_quoted xml '"' (s.getD []) [] hs hg
       simp [hq, dtScan, this]
   · simp [sysLit, ht, dtScan]
 
-/-- under the field conditions the literal is inside the tokenizer's hypothesis -/
-theorem dtScan_doctypeContent (n : Str) (p s : Option Str) (h : dtFieldsOk n p s = true) :
-    dtScan none (doctypeContent n p s) = true := by
+/-- under the field conditions the literal is inside the tokenizer's hypothesis; an HTML parser
+    additionally needs identifiers without `>` -/
+theorem dtScan_doctypeContent (xml : Bool) (n : Str) (p s : Option Str) (h : dtFieldsOk n p s = true)
+    (hgt : xml = false → dtNoGt p s = true) :
+    dtScan xml none (doctypeContent n p s) = true := by
   simp only [dtFieldsOk, Bool.and_eq_true] at h
   obtain ⟨⟨hn, hp⟩, hs⟩ := h
   have hn' : ∀ c ∈ n, (c != '>' && c != '"' && c != '\'') = true := by
@@ -203,11 +214,21 @@ theorem dtScan_doctypeContent (n : Str) (p s : Option Str) (h : dtFieldsOk n p s
     intro x hx
     have := List.all_eq_true.mp hp x hx
     simpa using this
-  rw [doctypeContent_eq, dtScan_append_plain n _ hn']
-  have hsys := dtScan_sysLit s hs
+  have hgp : xml = false → ∀ c ∈ p.getD [], (c == '>') = false := by
+    intro hx c hc
+    have := hgt hx
+    simp only [dtNoGt, Bool.and_eq_true] at this
+    simpa using List.all_eq_true.mp this.1 c hc
+  have hgs : xml = false → ∀ c ∈ s.getD [], (c == '>') = false := by
+    intro hx c hc
+    have := hgt hx
+    simp only [dtNoGt, Bool.and_eq_true] at this
+    simpa using List.all_eq_true.mp this.2 c hc
+  rw [doctypeContent_eq, dtScan_append_plain xml n _ hn']
+  have hsys := dtScan_sysLit xml s hs hgs
   by_cases hpt : truthy p = true
   · simp only [hpt, ↓reduceIte, kwPublic, List.cons_append, List.nil_append, List.append_assoc]
-    have := dtScan_quoted '"' (p.getD []) ([] ++ sysLit s) hp'
+    have := dtScan_quoted xml '"' (p.getD []) ([] ++ sysLit s) hp' hgp
     simp only [List.nil_append] at this
     simp [dtScan, this, hsys]
   · by_cases hst : truthy s = true
